@@ -20,6 +20,7 @@ func checkC03(p *Prog, res *Result, tier string) {
 	res.rule("C03-R1", "version records are written with allocated revisions only and deleted only by compaction code", 7)
 	res.rule("C03-R2", "every comparison of a stored value with a deletion marker, and the marker written by delete, use the one marker variable", 4)
 	res.rule("C03-R3", "a client value equal to the deletion marker is rejected before it is stored", 2)
+	res.rule("C03-R6", "the internal keys a read is addressed with are well-formed: encoder and decoder agree on the layout and the encoder returns a fresh array (C10-R1)", 5)
 	res.rule("C03-R4", "scan attempts start from an empty receiver; partition borders stay contiguous; a failed partition fails the read (C13-R5/R6/R8)", 5)
 
 	// ---- R1 ----
@@ -186,6 +187,14 @@ func checkC03(p *Prog, res *Result, tier string) {
 	for _, o := range sub13.Obls {
 		if o.Rule == "C13-R5" || o.Rule == "C13-R6" || o.Rule == "C13-R8" {
 			res.add("C03-R4", o.Rule+" "+o.Construct, o.Status, o.Pos, o.Detail)
+		}
+	}
+
+	// ---- R6: the keys a read is addressed with ----
+	sub10 := p.subResult("C10", tier)
+	for _, o := range sub10.Obls {
+		if o.Rule == "C10-R1" {
+			res.add("C03-R6", o.Rule+" "+o.Construct, o.Status, o.Pos, o.Detail)
 		}
 	}
 
